@@ -20,7 +20,6 @@ CORR_ONLY = ["real memory safety is observed by the sanitizers on the compiled p
              "Interpolation_2D(data_table) sort/unique step: std::sort + std::unique modelled by mergeSort + eraseDups (guard_iff for this constructor is correspondence-only)",
              "values returned by accepted requests are not compared here (C01-C09, C12-C20 do that)"]
 ASSUMPTIONS = ["1e-2 of Interpolation::Locate is modelled as exactly 1/100 and unit products exactly; abscissae are probed at ZERO margin (the edge itself, 1/2/4 ulps and 2^-50, 2^-40 relative beside it): a request is left out only if the domain test evaluated in double arithmetic differs from its exact evaluation AND the abscissa lies within 2^-44 (relative) of the edge (counted in input_distribution; 0 of ~6200 quick, 200 of ~45000 thorough requests)",
-               "boundary reading of the 1% tolerance: the code (and the shared model Lp.Interp.locate) accepts |x - end| < 1% of the edge interval; an argument EXACTLY 1% outside (observable in doubles, e.g. Interpolation({0,100,200})(-1.0)) stops - see fixprop-C10-17 (`<=`)",
                "Matrix::Inverse: with exact arithmetic the third exit (zero pivot after partial pivoting) is unreachable for det != 0; inputs are small integer matrices on which double arithmetic is exact",
                "std::is_sorted / std::sort / std::unique behave as specified by the C++ standard"]
 TRUSTED = ["harness/c10.cpp builds the operands (constant-filled vectors/matrices/tables of the requested shape) for each request",
@@ -72,7 +71,7 @@ def _dom_cpp(cx, v):
     """the domain test of Interpolation::Locate evaluated in double arithmetic, as the C++ does"""
     d0, d1 = cx[0], cx[-1]
     if v < d0 or v > d1:
-        return abs(v - d0) < 1e-2 * (cx[1] - cx[0]) or abs(v - d1) < 1e-2 * (cx[-1] - cx[-2])
+        return abs(v - d0) <= 1e-2 * (cx[1] - cx[0]) or abs(v - d1) <= 1e-2 * (cx[-1] - cx[-2])
     return True
 
 
@@ -84,8 +83,34 @@ def _dom_exact(ex, v):
     if v < d0 or v > d1:
         tl, tr = (ex[1] - ex[0]) / 100, (ex[-1] - ex[-2]) / 100
         rel = min(abs(abs(v - d0) - tl) / tl, abs(abs(v - d1) - tr) / tr)
-        return (abs(v - d0) < tl or abs(v - d1) < tr), rel
+        return (abs(v - d0) <= tl or abs(v - d1) <= tr), rel
     return True, min(abs(v - d0), abs(v - d1)) / (d1 - d0)
+
+
+def _interp_axes(rq):
+    """(grid, unit factor, abscissae) per axis of an interpolation query request; None for the other requests"""
+    t = rq.split()
+    op = t[0]
+    if not op.startswith("c10.interp") or op in ("c10.interp.ctor", "c10.interp.table", "c10.interp2.ctor", "c10.interp2.table"):
+        return None
+    pos = 1
+    def lst_():
+        nonlocal pos
+        n = int(t[pos]); v = [fl(x) for x in t[pos + 1:pos + 1 + n]]; pos += 1 + n
+        return v
+    if op == "c10.interp2.eval":
+        xs, ys = lst_(), lst_()
+        xd, yd = fl(t[pos]), fl(t[pos + 1]); pos += 2
+        return [(xs, xd, [fl(t[pos])]), (ys, yd, [fl(t[pos + 1])])]
+    xs = lst_()
+    xd = fl(t[pos]); pos += 2
+    if op == "c10.interp.hist":
+        vs = lst_()
+    elif op == "c10.interp.deriv":
+        vs = [fl(t[pos])]
+    else:
+        vs = [fl(x) for x in t[pos:]]
+    return [(xs, xd, vs)]
 
 
 def band_filter(reqs, ctx):
@@ -94,30 +119,9 @@ def band_filter(reqs, ctx):
     at zero margin.  A disagreement farther than 2^-44 (relative) from the edge is NOT dropped."""
     out = []
     for rq in reqs:
-        t = rq.split()
-        op = t[0]
-        if not op.startswith("c10.interp") or op in ("c10.interp.ctor", "c10.interp.table", "c10.interp2.ctor", "c10.interp2.table"):
+        axes = _interp_axes(rq)
+        if axes is None:
             out.append(rq); continue
-        pos = 1
-        def lst_():
-            nonlocal pos
-            n = int(t[pos]); v = [fl(x) for x in t[pos + 1:pos + 1 + n]]; pos += 1 + n
-            return v
-        axes = []
-        if op == "c10.interp2.eval":
-            xs, ys = lst_(), lst_()
-            xd, yd = fl(t[pos]), fl(t[pos + 1]); pos += 2
-            axes = [(xs, xd, [fl(t[pos])]), (ys, yd, [fl(t[pos + 1])])]
-        else:
-            xs = lst_()
-            xd = fl(t[pos]); pos += 2
-            if op == "c10.interp.hist":
-                vs = lst_()
-            elif op == "c10.interp.deriv":
-                vs = [fl(t[pos])]
-            else:
-                vs = [fl(x) for x in t[pos:]]
-            axes = [(xs, xd, vs)]
         drop = False
         for raw, d, vs in axes:
             cx = [x * d for x in raw] if d > 0 else list(raw)
@@ -535,29 +539,6 @@ def generate(tier, seed, ctx):
                 for nd in sorted({0, cols, cols + 1, max(cols - 1, 0)}):
                     add("c10.importtable %d %d %d %d" % (e, rows, cols, nd))
         add("c10.checkerr %d" % e)
-    # The families below probe audit defects 18, 19 and the length-0 quantifier.  Each family is generated as soon as the
-    # tree under check carries its repair (fixprop-C10-18..22, recognised by a marker in the source) or known_findings.json
-    # carries its entry (ids C10-18-*, C10-19-*, C10-20-*, C10-21-*, C10-22-*); C10_PENDING=1 forces all of them on (they then
-    # FAIL on an unrepaired tree: that is the rehearsal of the repairs), C10_PENDING=0 all off.
-    def _family_on(n, relpath, marker):
-        v = os.environ.get("C10_PENDING", "auto")
-        if v in ("0", "1"):
-            return v == "1"
-        try:
-            if marker in open(os.path.join(ctx.get("repo", "/repo"), relpath)).read():
-                return True
-            import json
-            kf = json.load(open(os.path.join(ctx.get("verif", os.path.dirname(os.path.dirname(os.path.abspath(__file__)))), "known_findings.json")))
-            return any(str(k.get("id", "")).startswith("C10-%d-" % n) for k in kf.get("findings", []))
-        except (OSError, ValueError):
-            return False
-    fam = {18: _family_on(18, "src/Statistics.cpp", "libphysica::PDF_Gauss()"), 19: _family_on(19, "src/Linear_Algebra.cpp", "valid_layout"),
-           20: _family_on(20, "include/libphysica/List_Manipulations.hpp", "lists.empty()"), 21: _family_on(21, "src/Utilities.cpp", "sorted_list.empty()"),
-           22: _family_on(22, "src/Utilities.cpp", "rows == 0")}
-    ctx["stats"]["pending families generated (18 parameters, 19 blocks, 20 transpose, 21 closest, 22 import)"] = "".join(str(int(fam[k])) for k in sorted(fam))
-    add_all = add
-    off = lambda r: None
-    add = add_all if fam[18] else off
     # ---- distribution / sampler parameters on both sides of their range (audit defect 18) ---------------------------------
     around0 = [-1.0, -P50, -5e-324, -0.0, 0.0, 5e-324, P50, 1.0, 7.5]
     for a_, b_ in ((0.0, 1.0), (1.0, 1.0), (1.0, 0.0), (-2.0, -1.0), (-1.0, -2.0), (0.0, 5e-324), (5e-324, 0.0), (1.0, 1.0 + 2.0 ** -52), (1.0 + 2.0 ** -52, 1.0), (-0.0, 0.0)):
@@ -597,23 +578,18 @@ def generate(tier, seed, ctx):
             add("c10.invgammap.p %s %s" % (hx(pq), hx(a_)))
             add("c10.invgammaq %s %s" % (hx(pq), hx(a_)))
     # ---- tables of length 0 and ragged lists of blocks (audit defect 19, length-0 quantifier) ---------------------------------
-    add = add_all if fam[20] else off
     add("c10.transpose.empty 0")
-    add = add_all if fam[21] else off
     for t_ in (0.0, 1.5):
         add("c10.closest.empty 0 %s" % hx(t_))
-    add = add_all if fam[22] else off
     for cols in (0, 1, 2):
         for nd in (0, 1, 2):
             add("c10.importtable.empty 1 0 %d %d" % (cols, nd))
-    add = add_all if fam[19] else off
     add("c10.mat.block.empty 0 0"); add("c10.mat.block.empty 0 2"); add("c10.mat.block.empty 2 0")
     blk = lambda rows: "c10.mat.blockr %d %s" % (len(rows), " ".join("%d %s" % (len(r), " ".join("%d %d" % b for b in r)) if r else "0" for r in rows))
     A, B_, C_, D_ = (2, 2), (2, 1), (1, 2), (1, 1)
     for rows in ([], [[]], [[], []], [[A], []], [[], [A]], [[A, B_], [C_]], [[A], [C_, D_]], [[A, B_], [C_, D_]], [[A, B_], [C_, D_], [C_]],
                  [[A, B_], [C_, D_], [C_, D_, D_]], [[A]], [[A, B_]], [[A], [C_]], [[A, B_], [C_, (1, 2)]], [[(0, 0)]], [[(0, 2), (0, 1)], [(1, 2), (1, 1)]]):
         add(blk(rows))
-    add = add_all
     # deterministic order, duplicates removed; interpolation requests inside the rounding band of the 1% test are dropped
     seen, out = set(), []
     for r in R:
@@ -663,6 +639,19 @@ def meaningful(rq):
     here).  Used as the search oracle when the Lean side does not build, and as a cross-check of the model otherwise."""
     t = rq.split()
     op, a = t[0][4:], t[1:]
+    axes = _interp_axes(rq)
+    if axes is not None:
+        # inside the tabulated domain or outside by at most one percent of the edge interval (exact arithmetic; the
+        # generator has left out the requests on which the double evaluation differs); Local_Minimum/Maximum: x_1 <= x_2
+        for raw, d, vs in axes:
+            ex = [F(x) * F(d) for x in raw] if d > 0 else [F(x) for x in raw]
+            if len(ex) < 3 or any(ex[i] >= ex[i + 1] for i in range(len(ex) - 1)):
+                return None
+            if not all(_dom_exact(ex, v)[0] for v in vs):
+                return False
+            if op in ("interp.lmin", "interp.lmax") and vs[1] < vs[0]:
+                return False
+        return True
     try:
         n = lambda k: int(a[k])
         x = lambda k: Fraction(fl(a[k]))
